@@ -29,7 +29,7 @@ func init() {
 		Rule: "RateLimitedIssuer.Evaluate(bytes) on requests built two ways: by pat-go's client, and entirely by the harness (own encoder, own HPKE sealing with the AAD of the draft, own key-blinded signer over crypto/ecdsa). Honest requests for a registered origin must be served and the response must finalize to a token valid under rsa.VerifyPSS. " +
 			"Must be rejected with an error and a nil response: every single-bit flip of an accepted encoding (exhaustive), every truncation, a trailing byte, a missing signature, unregistered origins (near misses of the registered names), requests sealed to another issuer's name key (key id kept and replaced), requests re-signed by an unrelated key, request key replaced and correctly re-signed (only the AAD binding catches it), AAD variants that drop or alter one component, inner requests truncated before encryption (with the empty origin registered). " +
 			"Differential part: on an issuer whose name key is derived from a seed known to the harness (verif-tagged hook) the harness decides every generated input itself (own parser, own HPKE open through go-hpke, own unpadding, origin lookup, crypto/ecdsa) - multi-bit and byte mutations, field splices between honest requests with and without re-signing, replaced-and-re-signed name key ids, (r, N-s), padded-origin and inner-request variants, foreign name keys, altered AADs - and Evaluate must agree. distinct_nontrivial = distinct (request, tampering class, position) and (class, reference reason) keys",
-		Floors:      []string{"served_pat_go_client", "served_harness_built", "response_finalized_valid", "bitflips_rejected", "truncations_rejected", "unregistered_origin_rejected", "foreign_name_key_rejected", "resigned_rejected", "aad_binding_rejected", "inner_truncated_rejected", "failed_registration_origin_rejected", "served_after_many_late_refusals", "client_requests_accepted_by_reference", "differential_agree_accept", "differential_agree_reject", "differential_reject_signature", "differential_reject_hpke-open", "differential_reject_unregistered-origin", "differential_reject_outer-parse"},
+		Floors:      []string{"served_pat_go_client", "served_harness_built", "response_finalized_valid", "bitflips_rejected", "truncations_rejected", "unregistered_origin_rejected", "foreign_name_key_rejected", "resigned_rejected", "aad_binding_rejected", "inner_truncated_rejected", "failed_registration_origin_rejected", "served_after_many_late_refusals", "long_origin_requests_served", "client_requests_accepted_by_reference", "differential_agree_accept", "differential_agree_reject", "differential_reject_signature", "differential_reject_hpke-open", "differential_reject_unregistered-origin", "differential_reject_outer-parse"},
 		Assumptions: []string{"enumerated part: acceptance is fixed by construction of each case; differential part: the issuer's name key comes from a known seed through the verif hook", "an inner request with trailing bytes after the padded origin is only counted (no rule in the statement)"},
 		Run:         runC07,
 	})
@@ -306,6 +306,31 @@ func runC07(c *core.Ctx) {
 		if wx.mustServe(wx.build(r, c07Opts{origin: "origin.example"}), "served-after-300-late-refusals") {
 			c.Class("served_after_many_late_refusals")
 		}
+	}
+
+	// requests for long registered origin names (the encrypted part grows to the 16-bit limit): served when authentic,
+	// refused when one bit near the end of the encrypted part is changed
+	for li, olen := range []int{609, 700, 1000, 5000, 40000, 65121, 65200, 65216} {
+		if !c.Next() {
+			continue
+		}
+		r := c.CaseRng()
+		name := string(alnum(r, olen))
+		iss := type3.NewRateLimitedIssuer(w.key)
+		iss.AddOrigin(name)
+		nkL, err := parseNameKey(iss.NameKey().Marshal())
+		must(err)
+		wl := &c07World{c: c, key: w.key, issuer: iss, other: w.other, nk: nkL, nkO: w.nkO, keyID: iss.TokenKeyID()}
+		b := wl.build(r, c07Opts{origin: name})
+		if wl.mustServe(b, fmt.Sprintf("long-origin#%d", olen)) {
+			c.Class("long_origin_requests_served")
+		}
+		for _, back := range []int{97, 98, 200, 1000, len(b.enc) / 2} {
+			if back < len(b.enc)-90 {
+				wl.mustReject(flipBit(b.enc, 8*(len(b.enc)-back)), fmt.Sprintf("long-origin-bitflip#%d", olen), "")
+			}
+		}
+		c.Distinctf("long-origin:%d", li)
 	}
 
 	nHonest := c.Pick(6, 60)
